@@ -239,6 +239,10 @@ func RunC05(t *testing.T, registry map[int]lexer.Definition, dataFile string) {
 		runC04Generated(t, registry, dataFile)
 		return
 	}
+	if os.Getenv("VERIF_AS_PROP") == "C07" {
+		runC07Generated(t, registry, dataFile)
+		return
+	}
 	r := vstat.For("C05")
 	r.SetRule(c05Rule)
 	data, err := os.ReadFile(dataFile)
@@ -418,6 +422,76 @@ const c04GenRule = "generated lexers (compile stage shared with C05): definition
 	"state machine; every successful token stream of the generated lexer is validated against the input text alone (values, offsets, " +
 	"order, final EOF, concatenation when nothing is dropped, line/column recomputed from the offset, filename); non-trivial = >=2 lines, " +
 	">=1 multi-byte rune, >=3 tokens"
+
+const c07GenRule = "generated lexers (compile stage shared with C05): definitions of the generator's supported class (Pop/Return reachable in the " +
+	"initial state included) x inputs walked through the state machine, noise and truncations x 3 further Next calls; oracle: every call " +
+	"returns within the 20 s watchdog without panicking, non-EOF tokens are non-empty, at most len(input) tokens, EOF is sticky at the same " +
+	"position; non-trivial = the lexer changed state or reported an error or emitted >= 3 tokens"
+
+// runC07Generated applies C07's totality oracle to the generated lexers of a batch.
+func runC07Generated(t *testing.T, registry map[int]lexer.Definition, dataFile string) {
+	r := vstat.For("C07")
+	r.SetRule(c07GenRule)
+	data, err := os.ReadFile(dataFile)
+	if err != nil {
+		t.Fatalf("harness: %v", err)
+	}
+	var defs []*C05Def
+	if err := json.Unmarshal(data, &defs); err != nil {
+		t.Fatalf("harness: %v", err)
+	}
+	failed := false
+	for _, d := range defs {
+		gen, ok := registry[d.ID]
+		if !ok || failed {
+			continue
+		}
+		r.Count("generated_lexers")
+		for _, inHex := range d.InputHex {
+			raw, _ := hex.DecodeString(inHex)
+			in := string(raw)
+			g := drain(gen, in, 3)
+			r.Eval()
+			r.Count("kind_generated")
+			msg := ""
+			switch {
+			case g.hung:
+				msg = "a call did not return within 20s"
+			case g.panicMsg != "":
+				msg = "panic: " + g.panicMsg
+			case g.err != nil && strings.HasPrefix(g.err.Error(), "harness: more tokens"):
+				msg = "more tokens than input bytes"
+			case g.err == nil && !g.eofOK:
+				msg = "EOF is not sticky: " + g.eofMsg
+			}
+			if msg == "" {
+				for _, tk := range g.toks {
+					if !tk.EOF() && tk.Value == "" {
+						msg = fmt.Sprintf("empty non-EOF token at offset %d", tk.Pos.Offset)
+						break
+					}
+				}
+			}
+			if g.err != nil {
+				r.Count("generated_reports_error")
+			}
+			if g.err != nil || len(g.toks) >= 3 {
+				r.NonTrivial(inHex+"|"+d.RS.String(), func() any { return map[string]any{"kind": "generated", "rules_text": d.RS.String(), "input_hex": inHex} })
+			}
+			if msg != "" {
+				failed = true
+				c := map[string]any{"kind": "generated", "rules": d.RS, "input_hex": inHex, "extra_next": 3, "rules_text": d.RS.String()}
+				b, _ := json.Marshal(c)
+				r.SaveFailure(&vstat.Failure{Property: "C07", Message: fmt.Sprintf("generated lexer, input %q: %s\n%s", in, msg, d.RS.String()), Case: b})
+				break
+			}
+		}
+	}
+	r.Flush()
+	if failed {
+		t.FailNow()
+	}
+}
 
 // runC04Generated applies C04's validity predicate to the generated lexers of a batch.
 func runC04Generated(t *testing.T, registry map[int]lexer.Definition, dataFile string) {
